@@ -49,7 +49,7 @@ class C14(Property):
     design_ref = 'DESIGN.md section 10, C14'
     required_theorems = (
         'dispatch_exact', 'dispatch_history_free', 'events_once_in_order', 'ontology_before_use',
-        'counters_eq_delivered', 'reuse_dispatch_exact',
+        'counters_eq_delivered', 'reuse_dispatch_exact', 'resilient_dispatch_exact',
     )
     level_text = ('Lean 4 theorems over the parser state machine (model of _parse_edxml / __parse_event / '
                   '_get_event_handlers / __process_ontology): for every document and registration set the invocation '
@@ -90,8 +90,22 @@ class C14(Property):
                     if 'idx' in it:
                         it['idx'] += 100 * d
                 docs.append(items)
-            yield {'kind': 'reuse', 'docs': docs, 'regs': P.gen_regs(rng) or [['src', [rng.choice(P.PATTERNS)], 0]],
-                   'overridden': rng.random() < 0.5, 'validate': rng.random() < 0.8}
+            c = {'kind': 'reuse', 'docs': docs, 'regs': P.gen_regs(rng) or [['src', [rng.choice(P.PATTERNS)], 0]],
+                 'overridden': rng.random() < 0.5, 'validate': rng.random() < 0.8}
+            if rng.random() < 0.5:
+                # further handlers are registered between the documents (ids continue after the first ones)
+                more = [[kind, keys, hid + 10] for kind, keys, hid in P.gen_regs(rng)] or [['src', [rng.choice(P.PATTERNS)], 10]]
+                c['late_regs'] = {str(rng.randint(1, len(docs) - 1)): more}
+            yield c
+        for _ in range(60 if tier == 'quick' else 1500):
+            # a push parser fed element by element; its owner catches the error of every refused event and feeds on
+            items = [it for it in P.gen_items(rng, rng.randint(3, 12), faults=False)]
+            for it in items:
+                if it['k'] == 'event' and rng.random() < 0.3:
+                    it['gate'] = False
+                    it['flavour'] = rng.choice(['undeclared', 'missing'])
+            yield {'kind': 'resume', 'items': items, 'regs': P.gen_regs(rng) or [['type', [rng.choice(P.TYPES)], 0]],
+                   'overridden': rng.random() < 0.5, 'validate': True}
         for _ in range(n):
             items = P.gen_items(rng, rng.randint(0, 14))
             regs = P.gen_regs(rng)
@@ -118,9 +132,12 @@ class C14(Property):
             finally:
                 os.unlink(name)
             return {'outcome': outcome, 'rows': out.decode('utf-8').split('\n')[:-1]}
+        if case.get('kind') == 'resume':
+            data, ends = P.build_document(case['items'])
+            return P.run_parser_resilient(data, ends, case['regs'], case['overridden'], case['validate'])
         if case.get('kind') == 'reuse':
             datas = [P.build_document(items)[0] for items in case['docs']]
-            return {'docs': P.run_parser_reuse(datas, case['regs'], case['overridden'], case['validate'])}
+            return {'docs': P.run_parser_reuse(datas, case['regs'], case['overridden'], case['validate'], case.get('late_regs'))}
         data, _ends = P.build_document(case['items'], case.get('version', '3.0.0'))
         cuts = None
         if case['mode'] == 'push':
@@ -133,17 +150,35 @@ class C14(Property):
             # the tool is a parser whose event callback prints: one type handler (id 0) for the requested type
             return [{'op': 'parse', 'reg': P.make_registry([['type', [case['type']], 0]], False, True),
                      'chunks': [P.model_items(case['items'])], 'rootEnd': True, 'versionOk': True}]
-        if case.get('kind') == 'reuse':
+        if case.get('kind') == 'resume':
             return [{'op': 'parse', 'reg': P.make_registry(case['regs'], case['overridden'], case['validate']),
-                     'docs': [{'items': P.model_items(items), 'versionOk': True} for items in case['docs']]}]
+                     'resilient': P.model_items(case['items'])}]
+        if case.get('kind') == 'reuse':
+            regs_at = self.regs_at(case)
+            return [{'op': 'parse', 'reg': P.make_registry(case['regs'], case['overridden'], case['validate']),
+                     'docs': [{'items': P.model_items(items), 'versionOk': True,
+                               'reg': P.make_registry(regs_at[k], case['overridden'], case['validate'])}
+                              for k, items in enumerate(case['docs'])]}]
         return [{'op': 'parse', 'reg': P.make_registry(case['regs'], case['overridden'], case['validate']),
                  'chunks': [P.model_items(case['items'])], 'rootEnd': True,
                  'versionOk': case.get('version', '3.0.0') == '3.0.0'}]
+
+    @staticmethod
+    def regs_at(case):
+        """The registrations in force when document k is parsed."""
+        out, cur = [], list(case['regs'])
+        for k in range(len(case['docs'])):
+            cur = cur + list((case.get('late_regs') or {}).get(str(k), []))
+            out.append(list(cur))
+        return out
 
     def predict(self, case, replies):
         if case.get('kind') == 'cli':
             r = replies[0]
             return {'outcome': None if r['err'] is None else r['err'], 'rows': ['v%d' % c[-1] for c in r['log'] if c[0] == 'h']}
+        if case.get('kind') == 'resume':
+            v = P.model_view(replies[0]['view'], case['items'])
+            return {'log': v['log'], 'errors': replies[0]['errors'], 'nEvents': v['nEvents'], 'typeCount': v['typeCount']}
         if case.get('kind') == 'reuse':
             out = []
             for rep, items in zip(replies[0]['docs'], case['docs']):
@@ -168,12 +203,34 @@ class C14(Property):
             if obs['rows'] != want:
                 return 'edxml-to-delimited printed %r for the events %r of type %s' % (obs['rows'], want, case['type'])
             return None
+        if case.get('kind') == 'resume':
+            # the refused events raise and reach nobody; the others are dispatched as if the refused ones were not there
+            kept = [it for it in case['items'] if it['k'] != 'event' or it['gate']]
+            log, n, delivered, err = expected_log(kept, case['regs'], case['overridden'], case['validate'])
+            evs = lambda lg: [c for c in lg if c[0] in ('h', 'fb', 'f')]   # noqa: E731
+            refused = sum(1 for it in case['items'] if it['k'] == 'event' and not it['gate'])
+            if obs['errors'] != ['EDXMLEventValidationError'] * refused:
+                return 'a push parser that is fed on after refused events raised %r for %d refused events' % (obs['errors'], refused)
+            if evs(obs['log']) != evs(log):
+                for i, (a, b) in enumerate(zip(evs(obs['log']) + [None], evs(log) + [None])):
+                    if a != b:
+                        return 'a push parser that is fed on after refused events: event/foreign callback %d is %r, expected %r' % (i, a, b)
+            if obs['nEvents'] != n:
+                return 'a push parser that is fed on after refused events: event counter %d but %d events were delivered' % (obs['nEvents'], n)
+            for t, c in obs['typeCount']:
+                if c != delivered.get(t, 0):
+                    return 'a push parser that is fed on after refused events: counter of event type %s is %d but %d were delivered' % (
+                        t, c, delivered.get(t, 0))
+            return None
         if case.get('kind') == 'reuse':
             # every document by the rule for a single document, with the types and sources of the earlier documents known
             # from the start; the event counter counts the document, the per-type counters all documents
             types, sources, before = set(), set(), {}
+            regs_at = self.regs_at(case)
             for k, (items, o) in enumerate(zip(case['docs'], obs['docs'])):
-                log, n, delivered, err = expected_log(items, case['regs'], case['overridden'], case['validate'], types, sources)
+                # (every document begins with an ontology element, so that handlers registered before it are in force for all
+                # of its events)
+                log, n, delivered, err = expected_log(items, regs_at[k], case['overridden'], case['validate'], types, sources)
                 evs = lambda lg: [c for c in lg if c[0] in ('h', 'fb', 'f')]   # noqa: E731
                 if evs(o['log']) != evs(log):
                     for i, (a, b) in enumerate(zip(evs(o['log']) + [None], evs(log) + [None])):
@@ -223,7 +280,7 @@ class C14(Property):
 
     def neighbours(self, case, rng):
         out = []
-        if case.get('kind') in ('cli', 'reuse'):
+        if case.get('kind') in ('cli', 'reuse', 'resume'):
             return []
         for _ in range(80):
             c = json.loads(json.dumps(case))
@@ -233,7 +290,7 @@ class C14(Property):
         return out
 
     def reductions(self, case):
-        if case.get('kind') == 'reuse':
+        if case.get('kind') in ('reuse', 'resume'):
             return
         for i in range(len(case['items']) - 1, 0, -1):
             c = json.loads(json.dumps(case))
@@ -247,7 +304,7 @@ class C14(Property):
     def nontrivial(self, case):
         if case.get('kind') == 'cli':
             return json.dumps(case, sort_keys=True) if sum(1 for it in case['items'] if it['k'] == 'ont') > 1 else None
-        if case.get('kind') == 'reuse':
+        if case.get('kind') in ('reuse', 'resume'):
             return json.dumps(case, sort_keys=True)
         if not case['regs'] or not any(it['k'] == 'event' for it in case['items']):
             return None
